@@ -91,6 +91,44 @@ PROPS["C09"] = {
 }
 
 
+def nontrivial_cnt(case, out):
+    m = re.search(r"count=(\d+)", out)
+    t = case.split(" ")
+    if not m:
+        return False
+    return (t[2] == "R" and int(m.group(1)) > 200) or (t[2] == "H" and int(t[8]) > 127)
+
+
+def cnt_oracle(pid, res, driver):
+    findings = []
+    data = res.stream_data.get("CNT")
+    if data:
+        for c, o in zip(data["cases"], data["impl"].get("debug", [])):
+            m = re.search(r"count=(\d+) written=(\d+)(?: written64=(\d+))?", o)
+            if " ok " in o and m:
+                if m.group(1) != m.group(2) or (m.group(3) and m.group(3) != m.group(1)) or " same=0" in o:
+                    findings.append({"case": c, "impl": o[:300], "why": "count_bits differs from the number of bits written (or the two sink types disagree)"})
+            elif o.endswith("panic") or "no-output" in o:
+                findings.append({"case": c, "impl": o[:300], "why": "count_bits/write panicked on a verified component"})
+    findings += enc_oracle(pid, res, driver)
+    return findings
+
+
+CNT_STREAM = {"name": "CNT", "quick": 1500, "thorough": 30000, "profiles": ["debug", "release"], "nontrivial": nontrivial_cnt}
+
+PROPS["C08"] = {
+    "coq": "theories/Props/C08.v",
+    "theorems": ["C08_residual", "C08_subframe", "C08_ops_len_is_bits", "C08_frame", "C08_frame_whole_bytes",
+                 "C08_precompute", "C08_either_sink"],
+    "streams": "ENC+CNT",
+    "rule": "ENC+CNT",
+    "oracle": cnt_oracle,
+    "assumptions": ["shape hypotheses (wf_residual, sub_shape, frame_ops_wfb) are decidable side conditions; the encoder's outputs "
+                    "are shown to satisfy them by correspondence (and by proof where Proofs/* state it)",
+                    "stream-level sum is checked on every ENC case (cb field) and follows from the frame theorem"],
+}
+
+
 def check_coq(pid, spec, res):
     """Build the proofs; returns True when the property's theorems are all checked."""
     closure = fv.dep_closure(spec["coq"])
@@ -189,8 +227,12 @@ def run_check(pid, spec, tier, seed, replay):
     spec = dict(spec)
     if spec.get("streams") == "ENC":
         spec["streams"] = [dict(ENC_STREAM)]
+    if spec.get("streams") == "ENC+CNT":
+        spec["streams"] = [dict(ENC_STREAM), dict(CNT_STREAM)]
     if spec.get("rule") == "ENC":
         spec["rule"] = ENC_RULE
+    if spec.get("rule") == "ENC+CNT":
+        spec["rule"] = ENC_RULE + " CNT: directly constructed residuals (partition order 0..4, partition sizes 1..65, parameters 0..14, up to 3 quotients of 2^28..2^32-1 so sums cross 2^32; written through a counting sink) and frame headers (every block-size / sample-rate code class, frame numbers to 2^31-1, start samples to 2^36-1, through both MemSink types). Non-trivial = residual > 200 bits or number > 127."
     res = Result(pid)
     res.rule = spec.get("rule", "")
     res.assumptions = spec.get("assumptions", [])
